@@ -446,7 +446,8 @@ func (s *FileSource) streamReader(blockReader *DBinBlockReader, prevLastBlockRea
 		var blk *pbbstream.Block
 		blk, err = blockReader.Read()
 		if err != nil && err != io.EOF {
-			close(preprocessed)
+			// do not close(preprocessed) here: that would let run() move on to the next file
+			// before our caller reports this error through Shutdown(), which stops the drain goroutine
 			return err
 		}
 
